@@ -13,6 +13,8 @@ pub enum CV {
     Path(String),
     Str(String),
     Int(i64),
+    /// an integer written in hexadecimal (a negative one as `-0x…`)
+    HexInt(i64),
     /// source text of the floating literal
     Double(String),
     List(Vec<CV>),
@@ -391,6 +393,10 @@ impl<'a> Printer<'a> {
             CV::Path(p) => self.tok(p),
             CV::Str(s) => self.lit(s),
             CV::Int(i) => self.tok(&i.to_string()),
+            CV::HexInt(i) => {
+                let t = if *i < 0 { format!("-0x{:x}", i.unsigned_abs()) } else { format!("0x{:x}", i) };
+                self.tok(&t)
+            }
             CV::Double(s) => self.tok(s),
             CV::List(es) => {
                 self.tok("[");
@@ -729,6 +735,7 @@ pub fn arb_cv(depth: u32, kw: bool) -> BoxedStrategy<CV> {
         arb_path(kw).prop_map(CV::Path),
         arb_lit().prop_map(CV::Str),
         prop_oneof![any::<i64>(), -10i64..1000, Just(i64::MAX), Just(i64::MIN + 1)].prop_map(CV::Int),
+        prop_oneof![-70000i64..70000, (i64::MIN + 1)..=i64::MAX].prop_map(CV::HexInt),
         prop_oneof![
             Just("1.5".to_string()),
             Just("-0.25".to_string()),
